@@ -122,7 +122,7 @@ explicit state and `errorf` as an exit site: how the output and the input are op
 theorem keygen_open_tie {ζ τ : Type} (nilZ stdout stdin : ζ) (OF : Bytes → Int → UInt32 → τ → Go.M (ζ × Option Go.Err × τ))
     (Arg : Int → τ → Go.M (Bytes × τ)) (Op : Bytes → τ → Go.M (ζ × Option Go.Err × τ))
     (convertFlag : Bool) (outFlag : Bytes) (t0 : τ) :
-    main_main nilZ stdout OF stdin Arg Op convertFlag outFlag t0 =
+    keygen_main nilZ stdout OF stdin Arg Op convertFlag outFlag t0 =
       if outFlag = [] then GoTie.keygenOpenIn stdin Arg Op stdout t0
       else (do
         let f ← OF outFlag 193 384 t0
@@ -136,15 +136,15 @@ theorem keygen_flags : (193 : Int) = 1 + 64 + 128 ∧ (384 : UInt32) = 6 * 64 :=
 theorem keygen_open_flags {ζ τ : Type} (nilZ stdout stdin : ζ) (OF OF' : Bytes → Int → UInt32 → τ → Go.M (ζ × Option Go.Err × τ))
     (Arg : Int → τ → Go.M (Bytes × τ)) (Op : Bytes → τ → Go.M (ζ × Option Go.Err × τ))
     (h : ∀ n t, OF n 193 384 t = OF' n 193 384 t) (convertFlag : Bool) (outFlag : Bytes) (t0 : τ) :
-    main_main nilZ stdout OF stdin Arg Op convertFlag outFlag t0 =
-      main_main nilZ stdout OF' stdin Arg Op convertFlag outFlag t0 :=
+    keygen_main nilZ stdout OF stdin Arg Op convertFlag outFlag t0 =
+      keygen_main nilZ stdout OF' stdin Arg Op convertFlag outFlag t0 :=
   GoTie.keygen_open_flags nilZ stdout stdin OF Arg Op OF' h convertFlag outFlag t0
 
 /-- `age-keygen -y` returns exactly when the input parsed to at least one identity, all native, and every recipient line
     was written without error, one per identity, in order -/
 theorem keygen_convert_returns_iff {ζ ι ρ τ : Type} (PI : Bytes → τ → Go.M (List ι × Option Go.Err × τ)) (isX : ι → Bool)
     (Rc : ι → τ → Go.M (ρ × τ)) (F : ζ → Bytes → ρ → τ → Go.M (Int × Option Go.Err × τ)) (inp : Bytes) (out : ζ) (t0 t' : τ) :
-    main_convert PI isX Rc F inp out t0 = .ok t' ↔
+    keygen_convert PI isX Rc F inp out t0 = .ok t' ↔
       ∃ ids t1, PI inp t0 = .ok (ids, none, t1) ∧ ids ≠ [] ∧ (∀ id ∈ ids, isX id = true) ∧
         GoTie.KeygenWrites Rc F out ids t1 t' :=
   GoTie.keygen_convert_returns_iff PI isX Rc F inp out t0 t'
@@ -153,8 +153,8 @@ theorem keygen_convert_returns_iff {ζ ι ρ τ : Type} (PI : Bytes → τ → G
 theorem keygen_convert_exits {ζ ι ρ τ : Type} (PI : Bytes → τ → Go.M (List ι × Option Go.Err × τ)) (isX : ι → Bool)
     (Rc : ι → τ → Go.M (ρ × τ)) (F : ζ → Bytes → ρ → τ → Go.M (Int × Option Go.Err × τ)) (inp : Bytes) (out : ζ) (t0 : τ)
     (hPI : ∀ b t, ∃ r, PI b t = .ok r) (hRc : ∀ i t, ∃ r, Rc i t = .ok r) (hF : ∀ o f r t, ∃ x, F o f r t = .ok x) :
-    (∃ t', main_convert PI isX Rc F inp out t0 = .ok t') ∨
-      ∃ k, k < 4 ∧ main_convert PI isX Rc F inp out t0 = .error (.panic (1000 + k)) :=
+    (∃ t', keygen_convert PI isX Rc F inp out t0 = .ok t') ∨
+      ∃ k, k < 4 ∧ keygen_convert PI isX Rc F inp out t0 = .error (.panic (1000 + k)) :=
   GoTie.keygen_convert_exits PI isX Rc F inp out t0 hPI hRc hF
 
 /-- `generate` returns only if the key pair was generated and the ONE write of the key file reported success -/
@@ -162,7 +162,7 @@ theorem keygen_generate_returns {ζ θ ι ρ τ : Type} (G : τ → Go.M (ι × 
     (IsT : Int → τ → Go.M (Bool × τ)) (stderr : ζ) (Rc : ι → τ → Go.M (ρ × τ))
     (F1 : ζ → Bytes → ρ → τ → Go.M (Int × Option Go.Err × τ)) (Fmt : θ → Bytes → τ → Go.M (Bytes × τ))
     (Now : τ → Go.M (θ × τ)) (F2 : ζ → Bytes → Bytes → ρ → ι → τ → Go.M (Int × Option Go.Err × τ)) (out : ζ) (t0 t' : τ)
-    (h : main_generate G Fd IsT stderr Rc F1 Fmt Now F2 out t0 = .ok t') :
+    (h : keygen_generate G Fd IsT stderr Rc F1 Fmt Now F2 out t0 = .ok t') :
     ∃ k t1, G t0 = .ok (k, none, t1) ∧
       ∃ (ts : Bytes) (rc : ρ) (t2 : τ) (n : Int), F2 out GoTie.fmtKeyFile ts rc k t2 = .ok (n, none, t') :=
   GoTie.keygen_generate_returns G Fd IsT stderr Rc F1 Fmt Now F2 out t0 t' h
@@ -194,7 +194,7 @@ theorem cli_decrypt_refused_refines {ι : Type} (dest : Cli.Dest) (e : Go.Err) (
 /-- `age-keygen -y`: the translated loop is `Cli.kwriteLines` over the recipient lines -/
 theorem keygen_convert_refines {ι : Type} (eW : Go.Err) (rcOf : ι → Bytes) (ids : List ι) (hne : ids ≠ [])
     (inp : Bytes) (out : Cli.KDest) (p : Cli.Proc) :
-    main_convert (fun _ t => .ok (ids, none, t)) (fun _ => true) (fun id t => .ok (rcOf id, t)) (GoTie.kFprintfLine eW) inp out p =
+    keygen_convert (fun _ t => .ok (ids, none, t)) (fun _ => true) (fun id t => .ok (rcOf id, t)) (GoTie.kFprintfLine eW) inp out p =
       match Cli.kwriteLines out p (ids.map fun id => rcOf id ++ [10]) with
       | (p', true) => .ok p'
       | (_, false) => .error (.panic 1003) :=
@@ -203,7 +203,7 @@ theorem keygen_convert_refines {ι : Type} (eW : Go.Err) (rcOf : ι → Bytes) (
 /-- `age-keygen`: the translated `generate` is `Cli.kwriteLines` of the one key-file text -/
 theorem keygen_generate_refines {ι θ : Type} (eW : Go.Err) (text : Bytes) (k : ι) (fd : Int) (isTerm : Bool) (rc ts : Bytes)
     (now : θ) (e1 : Option Go.Err) (n1 : Int) (stderr out : Cli.KDest) (p : Cli.Proc) :
-    main_generate (fun t => .ok (k, none, t)) (fun _ t => .ok (fd, t)) (fun _ t => .ok (isTerm, t)) stderr
+    keygen_generate (fun t => .ok (k, none, t)) (fun _ t => .ok (fd, t)) (fun _ t => .ok (isTerm, t)) stderr
         (fun _ t => .ok (rc, t)) (fun _ _ _ t => .ok (n1, e1, t)) (fun _ _ t => .ok (ts, t)) (fun t => .ok (now, t))
         (GoTie.kFprintfKey eW text) out p =
       match Cli.kwriteLines out p [text] with
